@@ -118,6 +118,7 @@ def main():
         ],
         "checks": [],
         "not_applicable": [],
+        "known_findings": "known_findings.json (fixed: F1..F28 with the repairing commit; open: K1 for C07, reported as KNOWN-FINDING by check C07)",
         "notes": "All verdicts come from TLC evaluating TLA+ invariants, either on the model or on traces recorded from /repo's working tree. Exit 2 = infrastructure problem, never a verdict.",
     }
     for p in props:
